@@ -138,7 +138,11 @@ impl Scenario for ImeSequences {
         init_model(&mut bus);
         bus.write(0xffff, ie0 as u8);
         bus.write(0xff0f, if0 as u8);
-        let mut model = RefIme::new(MAIN, SP0, ime0 as u8, rs0 as u8);
+        // one case in five starts with the stack at the top of the address space, so that the pushes of a dispatch land on IE
+        // (0xFFFF) and may cancel it: the master enable is spent all the same
+        let sp0 = if rng.chance(1, 5) { rng.pick(&[0x0000i64, 0x0001]) } else { SP0 as i64 };
+        case.set("sp0", sp0);
+        let mut model = RefIme::new(MAIN, sp0 as u16, ime0 as u8, rs0 as u8);
         let max_steps = 4 * n as usize + 30;
         let mut last = Ins::Nop;
         let mut idle_run = 0;
@@ -188,8 +192,12 @@ impl Scenario for ImeSequences {
         let mut bus = model_of(case, m);
         init_model(&mut bus);
         m.wram().copy_from_slice(&bus.wram);
-        m.set_regs(Regs { af: 0, bc: 0, de: 0, hl: 0, sp: SP0 as u32, ip: MAIN as u32, cycles: 0 });
-        let mut model = RefIme::new(MAIN, SP0, 0, 0);
+        let sp0 = (case.get_or("sp0", SP0 as i64) & 0xffff) as u16;
+        if sp0 != SP0 {
+            ctx.cov.hit("probe.cases_with_the_stack_on_ie");
+        }
+        m.set_regs(Regs { af: 0, bc: 0, de: 0, hl: 0, sp: sp0 as u32, ip: MAIN as u32, cycles: 0 });
+        let mut model = RefIme::new(MAIN, sp0, 0, 0);
         let mut out = Vec::new();
         let mut event_pending = false;
         let mut clocks = 0u64;
